@@ -42,8 +42,8 @@ def case_ble_read(p):
                         out.append(("ble:rejected-read-reported-as-value", dict(det, key=i, got=r)))
                     elif r is None or r.get("status") in (None, 0):
                         out.append(("ble:read-error-status-not-reported", dict(det, key=i, got=r)))
-            if out:
-                break
+            if len(out) > 40 or any(s != "ble:read-error-status-not-reported" for s, _ in out):
+                break  # (the recorded known finding must not stop the sweep and mask anything else)
     finally:
         rig.close()
     p["_n"] = n
